@@ -45,7 +45,7 @@ CLASSES = {
 VARIANTS = {
     "C03": [("ctl:relist", 1.0)],
     "C04": [("ctl:watch", 1.0)],
-    "C05": [("mixed", 0.7), ("close", 0.3)],
+    "C05": [("mixed", 0.7), ("close", 0.3), ("ctl:relist", 0.5)],
     "C06": [("refilter", 0.5), ("mixed", 0.35), ("overflow", 0.15)],
     "C07": [("refilter", 1.0)],
     "C08": [("refilter", 0.5), ("mixed", 0.3), ("monitor", 0.2)],
